@@ -693,12 +693,12 @@ func (a *analysis) doFieldAddr(fn *ssa.Function, fa *ssa.FieldAddr, st *state) {
 	}
 	rd, wr, notes := a.usesOf(fa, fld.Type(), 0)
 	ctor := false
-	if al, ok := fa.X.(*ssa.Alloc); ok && wr && !rd {
-		ctor = freshUntil(al, fa)
+	if al, ok := fa.X.(*ssa.Alloc); ok {
+		ctor = privateAlloc(al) || (wr && !rd && freshUntil(al, fa))
 	}
 	mk := func(write bool, note string) {
 		a.accesses = append(a.accesses, accessEv{fn: fn, pos: fa.Pos(), strct: structName(n), field: fld.Name(), write: write,
-			ctor: ctor && write, note: note, base: canon(fa.X), local: copyMust(st.must), baseTyp: n})
+			ctor: ctor, note: note, base: canon(fa.X), local: copyMust(st.must), baseTyp: n})
 	}
 	if rd {
 		mk(false, "")
@@ -706,6 +706,31 @@ func (a *analysis) doFieldAddr(fn *ssa.Function, fa *ssa.FieldAddr, st *state) {
 	if wr {
 		mk(true, strings.Join(notes, ","))
 	}
+}
+
+// an allocation that never leaves the function except by being returned (or copied as a whole value): every access
+// to it inside the function is to a private object
+func privateAlloc(al *ssa.Alloc) bool {
+	refs := al.Referrers()
+	if refs == nil {
+		return false
+	}
+	for _, r := range *refs {
+		switch x := r.(type) {
+		case *ssa.FieldAddr, *ssa.DebugRef, *ssa.Return:
+		case *ssa.UnOp:
+			if x.Op != token.MUL {
+				return false
+			}
+		case *ssa.Store:
+			if x.Addr != ssa.Value(al) {
+				return false // the pointer itself is stored somewhere
+			}
+		default:
+			return false
+		}
+	}
+	return true
 }
 
 // is the allocation still private to the function when the field store through fa happens?
@@ -869,7 +894,7 @@ func readWhitelist(path string) ([]*wlEntry, error) {
 			line = strings.TrimSpace(line[:i])
 		}
 		fs := strings.Fields(line)
-		if len(fs) < 2 || why == "" {
+		if len(fs) < 2 || why == "" || len(why) < 10 {
 			return nil, fmt.Errorf("%s:%d: want `<kind> <field> [<spec>] # justification`", path, ln)
 		}
 		e := &wlEntry{kind: fs[0], field: fs[1], why: why}
@@ -877,7 +902,7 @@ func readWhitelist(path string) ([]*wlEntry, error) {
 			e.spec = strings.Join(fs[2:], " ")
 		}
 		switch e.kind {
-		case "confined", "prepublish", "blockok":
+		case "confined", "prepublish", "blockok", "valuetype":
 		default:
 			return nil, fmt.Errorf("%s:%d: unknown kind %q", path, ln, e.kind)
 		}
@@ -1248,9 +1273,19 @@ func (a *analysis) tables(tfns []*ssa.Function, wl []*wlEntry) *output {
 	}
 
 	// ---- accesses
+	valuetypes := map[string]*wlEntry{}
+	for _, e := range wl {
+		if e.kind == "valuetype" {
+			valuetypes[e.field] = e
+		}
+	}
 	for _, ev := range a.accesses {
 		if threads[ev.fn] == nil {
 			continue // not reachable from main / a goroutine / an entry point of the production program
+		}
+		if e := valuetypes[ev.strct]; e != nil {
+			e.used = true
+			continue
 		}
 		held := map[string]bool{}
 		if em := entryMust[ev.fn]; em != nil && !em.top {
@@ -1489,6 +1524,9 @@ func coq(o *output) string {
 		intern(fields, &fieldO, f)
 	}
 	q := func(s string) string { return "\"" + strings.ReplaceAll(s, "\"", "'") + "\"" }
+	cm := func(s string) string { // text safe inside a Coq comment
+		return strings.ReplaceAll(strings.ReplaceAll(strings.ReplaceAll(s, "(*", "(ptr "), "*)", "* )"), "\"", "'")
+	}
 	names := func(name string, order []string) {
 		fmt.Fprintf(&b, "Definition %s : list (N * string) := [\n", name)
 		for i, s := range order {
@@ -1528,17 +1566,17 @@ func coq(o *output) string {
 			rw = "write"
 		}
 		rows = append(rows, fmt.Sprintf("  mkAccess %d %v %v [%s] %d (* %s %s %s %s %s *)", fields[a.Field], a.Write, a.Exempt != "",
-			strings.Join(hs, "; "), site, rw, a.Field, a.Exempt, a.Func, a.Pos))
+			strings.Join(hs, "; "), site, rw, a.Field, a.Exempt, cm(a.Func), a.Pos))
 	}
 	var erows []string
 	for _, e := range o.Edges {
 		site := intern(sites, &siteO, e.Site+" ["+e.Via+"]")
-		erows = append(erows, fmt.Sprintf("  mkEdge %d %d %d (* %s -> %s at %s; %s *)", locks[e.From], locks[e.To], site, e.From, e.To, e.Site, e.Via))
+		erows = append(erows, fmt.Sprintf("  mkEdge %d %d %d (* %s -> %s at %s; %s *)", locks[e.From], locks[e.To], site, e.From, e.To, cm(e.Site), cm(e.Via)))
 	}
 	var brows []string
 	for _, bl := range o.Blocking {
 		site := intern(sites, &siteO, bl.Site+" ["+bl.Via+"]")
-		brows = append(brows, fmt.Sprintf("  mkBlocking %d %d %d (* send on %s holding %s at %s; %s *)", locks[bl.Held], fields[bl.Chan], site, bl.Chan, bl.Held, bl.Site, bl.Via))
+		brows = append(brows, fmt.Sprintf("  mkBlocking %d %d %d (* send on %s holding %s at %s; %s *)", locks[bl.Held], fields[bl.Chan], site, bl.Chan, bl.Held, cm(bl.Site), cm(bl.Via)))
 	}
 	b.WriteString("Definition translator_ok : bool := true.\n\n")
 	fmt.Fprintf(&b, "Definition unresolved : list string := [")
